@@ -586,6 +586,49 @@ func TestGeneratedStreams(t *testing.T) {
 	})
 }
 
+// Long blocks of the shortest instructions: the listing is then at its largest relative to the
+// input (30-50 listing bytes per input byte), whatever Disassemble assumes about its output size.
+func TestDenseListings(t *testing.T) {
+	harness.Rapid(t, harness.N(1500, 16*12000), func(t *rapid.T) {
+		b := []byte{0x89, 'I', 'V', 'G', 0x00}
+		n := rapid.SampledFrom([]int{20, 21, 22, 40, 64, 100, 300, 1000}).Draw(t, "n") + rapid.IntRange(0, 9).Draw(t, "nd")
+		kind := rapid.IntRange(0, 3).Draw(t, "kind")
+		// the incrementing forms have the longest lines ("...; CSEL++"): a block of them only, as a
+		// gradient set-up is, gives the densest listing of all
+		incr := rapid.Bool().Draw(t, "incr")
+		adj := func(l string) byte {
+			if incr {
+				return 7
+			}
+			return byte(rapid.IntRange(0, 7).Draw(t, l))
+		}
+		if incr && kind == 0 {
+			kind = 3
+		}
+		for i := 0; i < n; i++ {
+			k := kind
+			if kind == 3 {
+				k = rapid.IntRange(0, 2).Draw(t, "k")
+				if incr && k == 0 {
+					k = 1
+				}
+			}
+			switch k {
+			case 0: // selector writes, one byte each
+				b = append(b, byte(rapid.IntRange(0, 0x7f).Draw(t, "sel")))
+			case 1: // colour register <- 1-byte colour
+				b = append(b, 0x80+adj("cadj"), rapid.Byte().Draw(t, "col"))
+			default: // number register <- 1-byte real, coordinate or zero-to-one
+				b = append(b, []byte{0xa8, 0xb0, 0xb8}[rapid.IntRange(0, 2).Draw(t, "form")]+adj("nadj"), byte(rapid.IntRange(0, 119).Draw(t, "num"))<<1)
+			}
+		}
+		b = append(b, 0xc0, 0x80, 0x80, 0xe1)
+		c := Case{Bytes: b}
+		subListing.See(c, true, harness.Hash(b), "dense-block-of-short-instructions")
+		subListing.Run(t, c)
+	})
+}
+
 func TestRejectedAndMutated(t *testing.T) {
 	all := corpus.All()
 	harness.Rapid(t, harness.N(10000, 16*60000), func(t *rapid.T) {
